@@ -179,7 +179,41 @@ Proof.
   - pose proof (Inv_run evs (init idx0) h Hn (Inv_init h)) as HI. unfold Inv in HI. cbn zeta in HI. lia.
 Qed.
 
+(* refinement obligation of the atomic storePack: at every instant of a session a handle that was
+   accepted (some AddPending answered "not known"), or that sits in a packer / is about to be stored,
+   is pending or indexed *)
+Lemma accepted_always_known evs h : no_clear evs ->
+  let s := run (init idx0) evs in
+  (1 <= U h (res s) \/ 1 <= cnt h (packer s) \/ 1 <= cnt h (tick s) \/ 1 <= cnt h (dupq s)
+   \/ 1 <= firsts h (log s)) ->
+  known s h = true.
+Proof.
+  intros Hn s H. pose proof (Inv_run evs (init idx0) h Hn (Inv_init h)) as HI. fold s in HI.
+  unfold Inv in HI. cbn zeta in HI. apply known_cnt. lia.
+Qed.
+
+(* every handle requested at least once in a session got exactly one "not known" answer or was indexed *)
+Lemma requested_accepted_once evs h : no_clear evs ->
+  let s := run (init idx0) evs in
+  1 <= calls h (res s) -> mem h idx0 = false -> U h (res s) = 1.
+Proof.
+  intros Hn s Hc Hm. pose proof (known_answers evs h Hn) as K. fold s in K. cbn zeta in K.
+  rewrite Hm in K. lia.
+Qed.
+
 End Inv.
+
+(* with storePack split into two critical sections the invariant and store-once fail: blob 7 is
+   accepted, stored and uploaded; between the two halves a second saver is answered "not known" *)
+Lemma split_storepack_breaks :
+  let evs := [XE (EAdd 7%N false); XE (EStoreT 7%N); XRemovePending [7%N];
+              XE (EAdd 7%N false); XInsertPack [7%N]; XE (EStoreT 7%N); XE (EPack [7%N])] in
+  let mid := xrun (init []) (firstn 3 evs) in
+  let s := xrun (init []) evs in
+  (1 <= U 7%N (res mid) /\ known mid 7%N = false)
+  /\ U 7%N (res s) = 2 /\ firsts 7%N (log s) = 2 /\ cnt 7%N (idx s) = 2.
+Proof. vm_compute. repeat split; lia. Qed.
+
 
 (* every request of a run is recorded: calls = number of EAdd events *)
 Lemma calls_run evs : forall s h,
@@ -193,6 +227,43 @@ Proof.
   - destruct (mem h' (dupq s)); cbn [res]; lia.
   - destruct (take_all bs (packer s)); cbn [res]; lia.
   - cbn [res]. lia.
+Qed.
+
+(* runs in which nobody asks for a duplicate (the archiver always passes storeDuplicate = false) *)
+Definition no_dup (evs : list ev) : Prop := forall h, ~ In (EAdd h true) evs.
+
+Lemma D_run_no_dup evs : forall s h, no_dup evs -> D h (res (run s evs)) = D h (res s).
+Proof.
+  induction evs as [|e t IH]; intros s h Hn; [reflexivity|]. cbn [run fold_left]. fold (run (step s e) t).
+  rewrite IH by (intros h' Hin; apply (Hn h'); right; exact Hin).
+  destruct e as [h' dup | h' | h' | bs | ]; cbn [step].
+  - destruct dup; [exfalso; apply (Hn h'); left; reflexivity|].
+    destruct (known s h'); cbn [res]; rewrite D_cons; cbn [fst snd]; rewrite andb_false_r; reflexivity.
+  - destruct (mem h' (tick s)); reflexivity.
+  - destruct (mem h' (dupq s)); reflexivity.
+  - destruct (take_all bs (packer s)); reflexivity.
+  - reflexivity.
+Qed.
+
+(* backup runs: after the flush every blob has its old entries plus exactly one new entry if it was
+   requested and not indexed before - however many files contain it, however the savers interleave *)
+Lemma backup_entries idx0 evs h : no_clear evs -> no_dup evs ->
+  let s := run (init idx0) evs in
+  tick s = [] -> dupq s = [] -> packer s = [] ->
+  cnt h (idx s) = cnt h idx0 + (if mem h idx0 then 0 else Nat.min 1 (calls h (res s))).
+Proof.
+  intros Hc Hd s Ht Hq Hp.
+  pose proof (final_entries idx0 evs h Hc) as F. fold s in F. cbn zeta in F. rewrite (F Ht Hq Hp).
+  pose proof (known_answers idx0 evs h Hc) as K. fold s in K. cbn zeta in K. rewrite K.
+  unfold s. rewrite (D_run_no_dup evs (init idx0) h Hd). cbn [init res]. unfold D. cbn [filter length]. lia.
+Qed.
+
+Lemma cli_code_zero idx0 cs final h : cli_code idx0 cs final h = 0 <->
+  lookup h final = N.of_nat (cnt h idx0 + (if mem h cs && negb (mem h idx0) then 1 else 0)).
+Proof.
+  unfold cli_code. destruct (N.eqb_spec (lookup h final)
+    (N.of_nat (cnt h idx0 + (if mem h cs && negb (mem h idx0) then 1 else 0)))); cbn [negb];
+    split; intros H; try reflexivity; try discriminate; try assumption. contradiction.
 Qed.
 
 (* a blob whose pack never made it is not "known" in the next session *)
@@ -238,12 +309,35 @@ Proof.
   - split; [discriminate|]. intros [H _]. apply Nat.leb_gt in E1. lia.
 Qed.
 
+Lemma check_C16_stress r hn maxu never : check_C16 (CStress r hn maxu never) = true <->
+  (maxu <= 1)%N /\ never = 0%N.
+Proof.
+  unfold check_C16, oracle_code. destruct (N.leb_spec maxu 1) as [L|L]; cbn [negb].
+  - destruct (N.eqb_spec never 0) as [E|E]; cbn [negb]; split; intros G; try reflexivity; try discriminate.
+    + split; assumption.
+    + destruct G; contradiction.
+  - split; [discriminate|]. intros [G _]. lia.
+Qed.
+
 Lemma check_C16_api idx0 rs final : check_C16 (CApi idx0 rs final) = true <->
   Forall (fun h => U h rs <= 1 /\ (mem h idx0 = true -> U h rs = 0)
                    /\ lookup h final = N.of_nat (cnt h idx0 + U h rs + D h rs)) (handles_api idx0 rs final).
 Proof.
   unfold check_C16, oracle_code. rewrite Nat.eqb_eq, first_code_zero, Forall_map.
   rewrite !Forall_forall. split; intros H h Hh; apply api_code_zero; apply H; exact Hh.
+Qed.
+
+Lemma check_C16_cli idx0 cs newblobs final : check_C16 (CCli idx0 cs newblobs final) = true <->
+  newblobs = expected_new idx0 cs /\
+  Forall (fun h => lookup h final = N.of_nat (cnt h idx0 + (if mem h cs && negb (mem h idx0) then 1 else 0)))
+         (nodup_n (idx0 ++ cs ++ map fst final)).
+Proof.
+  unfold check_C16, oracle_code.
+  destruct (N.eqb_spec newblobs (expected_new idx0 cs)) as [E|E]; cbn [negb].
+  - rewrite Nat.eqb_eq, first_code_zero, Forall_map, !Forall_forall. split.
+    + intros H. split; [exact E|]. intros h Hh. apply cli_code_zero, H, Hh.
+    + intros [_ H] h Hh. apply cli_code_zero, H, Hh.
+  - split; [discriminate|]. intros [H _]. contradiction.
 Qed.
 
 (* the model's own sequential run satisfies what the oracle demands of the answers *)
